@@ -58,12 +58,12 @@ def constants(tier, what):
         c.update(SphN={1, 3, 5, 7, 9} if quick else {1, 3, 5, 7, 9, 11, 13}, PBox=2 if quick else 3)
     elif what == "disks":
         if not quick:
-            c.update(SphN={1, 3, 5}, CosNums={0, 25, 39, 60}, RadiiHalf={1, 2, 4, 7}, MaxDepth=3,
+            c.update(SphN={1, 3, 5, 7}, CosNums={0, 25, 39, 60}, RadiiHalf={1, 2, 4, 7}, MaxDepth=3,
                      Gens={"tr1", "tri", "inv", "rotq", "gen", "dil"}, Bound=5000)
     elif what == "pairs":
         c.update(GridN=6)
         if not quick:
-            c.update(PairRe=2, PairIm=1, PairRadiiHalf={1, 2, 4, 7}, PairGens={"tr1", "tri", "inv", "rotq"}, GridN=7)
+            c.update(PairRe=2, PairIm=2, PairRadiiHalf={1, 2, 4, 7}, PairGens={"tr1", "tri", "inv", "rotq"}, GridN=7)
     return c
 
 
@@ -484,6 +484,7 @@ def walk(D, cases, keys, word, depth, out, unit=False):
     if depth >= MAXDEPTH:
         return
     acts = sorted({a for i in alive for a in LTS.get(keys[i], {})})
+    before = np.array(D.proj_data)
     for a in acts:
         nk = [LTS.get(k, {}).get(a) if k is not None else None for k in keys]
         try:
@@ -493,6 +494,11 @@ def walk(D, cases, keys, word, depth, out, unit=False):
             i = next(i for i, k in enumerate(nk) if k is not None)
             out["viol"].append((cases[i], list(word) + [a], "raised:" + a.split(":")[0], err(e), None))
             continue
+        if not np.array_equal(before, D.proj_data, equal_nan=True):
+            # T @ d and d.complement() return new disks; the operand is still the disk it was
+            out["viol"].append((cases[alive[0]], list(word) + [a], "operand_changed_by:" + a.split(":")[0],
+                                "the disk the operation was applied to no longer holds the same data", None))
+            return
         walk(D2, cases, nk, word + (a,), depth + 1, out, unit)
 
 
